@@ -42,6 +42,9 @@ Proof. destruct t; try reflexivity. cbn [ident1]. destruct (identity_moves t); r
 Lemma peel1_ident1 t : peel1 (ident1 t) = peel1 t.
 Proof. destruct t; try reflexivity. cbn [ident1]. destruct (identity_moves t); reflexivity. Qed.
 
+Lemma ident1_facts t : canon (ident1 t) = canon t /\ ident1 (ident1 t) = ident1 t /\ peel1 (ident1 t) = peel1 t.
+Proof. exact (conj (canon_ident1 t) (conj (ident1_idem t) (peel1_ident1 t))). Qed.
+
 Lemma ident1_canon_eq a b : ident1 a = ident1 b -> canon a = canon b.
 Proof. intros H. rewrite <- (canon_ident1 a), <- (canon_ident1 b), H. reflexivity. Qed.
 
